@@ -28,7 +28,32 @@ KANI_RANGES = {
     "source_hint": "leptos_i18n_parser/src/parse_locales/ranges.rs",
 }
 
+import c15_extract
+
+
+def _c15(name, features):
+    return {
+        "name": name,
+        "cwd": lambda repo, root: __import__("os").path.join(root, "kani-crates", "c15"),
+        "prepare": c15_extract.prepare,
+        "module": "proofs",
+        "harness_files": ["kani-crates/c15/src/lib.rs"],
+        "features": features,
+        "flags": [],
+        "quick": ["resolve_locale_order", "once_then_first_value", "fetch_variants_first_value", "subcontext_order"],
+        "timeout": 300,
+        "procs": 4,
+        "target_tag": "c15",
+        "source_hint": "leptos_i18n/src/fetch_locale.rs, leptos_i18n/src/context.rs",
+    }
+
+
 PROPS = {
+    "C15": {
+        "level": "proof",
+        "verus": [],
+        "kani": [_c15("c15_kani_default", []), _c15("c15_kani_hydrate", ["hydrate"])],
+    },
     "C08": {
         "level": "proof",
         "verus": ["c08_push_count"],
